@@ -303,6 +303,23 @@ def convert_clone(iso, tgt, inplace=False):
 _DB_TEMPLATE = {}
 
 
+def _ensure_db_template():
+    """One empty store per run, created by the PARENT (self_validate runs before the worker pool is forked, so the workers
+    inherit the path and the parent's atexit removes the directory; pool workers leave through os._exit and would never
+    clean up a directory of their own). A process that did not inherit one (replay mode) makes its own."""
+    if _DB_TEMPLATE.get("path") and os.path.exists(_DB_TEMPLATE["path"]):
+        return
+    import shutil
+    import tempfile
+    from pygaps.utilities.sqlite_db_creator import db_create
+    tdir = tempfile.mkdtemp(prefix="c15_tpl_", dir="/dev/shm" if os.path.isdir("/dev/shm") else None)
+    db_create(os.path.join(tdir, "template.db"))
+    K.reset_registries()
+    import atexit
+    atexit.register(shutil.rmtree, tdir, True)
+    _DB_TEMPLATE.update(pid=os.getpid(), path=os.path.join(tdir, "template.db"))
+
+
 def _reimport(iso, via):
     """Export and re-import through CSV or a SQLite database file (a format that refuses the isotherm makes no claim)."""
     import os
@@ -318,14 +335,7 @@ def _reimport(iso, via):
                 xp = os.path.join(tmp, "iso.xls")
                 pgp.isotherm_to_xl(iso, xp)
                 return pgp.isotherm_from_xl(xp)
-            pid = os.getpid()
-            if _DB_TEMPLATE.get("pid") != pid:
-                from pygaps.utilities.sqlite_db_creator import db_create
-                tdir = tempfile.mkdtemp(prefix="c15_tpl_", dir="/dev/shm" if os.path.isdir("/dev/shm") else None)
-                db_create(os.path.join(tdir, "template.db"))
-                import atexit
-                atexit.register(shutil.rmtree, tdir, True)
-                _DB_TEMPLATE.update(pid=pid, path=os.path.join(tdir, "template.db"))
+            _ensure_db_template()
             path = os.path.join(tmp, "iso.db")
             shutil.copy(_DB_TEMPLATE["path"], path)
             from pygaps.parsing import sqlite as pgsql
@@ -1609,6 +1619,7 @@ def self_validate():
     problems = ru.check_names_against_library()
     if problems:
         raise HarnessError("; ".join(problems))
+    _ensure_db_template()
     K.reset_registries()
     for name in SAMPLES:
         iso = load_sample(name)
